@@ -131,7 +131,42 @@ def cluster(rng, argv):
     return out
 
 
+# environments a user's shell may legitimately have (chosen as a function of the command line, so that a replay makes
+# the same choice): locale variables naming locales that are not installed on this machine (ssh forwards LANG / LC_*
+# from the client), a message language, no HOME, another time zone.  None = variable removed.
+ENV_PROFILES = [{}, {}, {"LC_ALL": "xx_XX.UTF-8"}, {"LC_ALL": None, "LANG": "en_US.UTF-8"}, {"LC_ALL": None, "LC_CTYPE": "UTF-8"},
+                {"LANGUAGE": "de:fr", "LANG": "de_DE.UTF-8", "LC_ALL": None}, {"LC_ALL": None, "LC_MESSAGES": "ja_JP.eucJP", "LANG": "C"},
+                {"HOME": "/nonexistent", "TZ": "Asia/Kolkata"}, {"LC_ALL": "POSIX", "LANG": None}, {"LC_ALL": "tr_TR.ISO8859-9"}]
+
+
+def env_profile(argv, answers):
+    import zlib
+    return ENV_PROFILES[zlib.crc32(repr((list(argv), list(answers))).encode("utf-8", "replace")) % len(ENV_PROFILES)]
+
+
+def _apply_env(env, prof):
+    for k, v in prof.items():
+        if v is None:
+            env.pop(k, None)
+        else:
+            env[k] = v
+
+
 def run_inprocess(argv, answers):
+    saved = dict(os.environ)
+    _apply_env(os.environ, env_profile(argv, answers))
+    try:
+        return run_inprocess_(argv, answers)
+    finally:
+        for k in list(os.environ):
+            if k not in saved:
+                del os.environ[k]
+        for k, v in saved.items():
+            if os.environ.get(k) != v:
+                os.environ[k] = v
+
+
+def run_inprocess_(argv, answers):
     L = lib()
     fin = io.StringIO("".join(a + "\n" for a in answers))
     fout, ferr = io.StringIO(), io.StringIO()
@@ -161,6 +196,7 @@ def run_inprocess(argv, answers):
 def run_subprocess(argv, answers):
     env = dict(os.environ)
     env.update({"PYTHONPATH": bootstrap.REPO, "PYTHONIOENCODING": "utf-8", "LC_ALL": "C.UTF-8", "PYTHONDONTWRITEBYTECODE": "1"})
+    _apply_env(env, env_profile(argv, answers))
     try:
         p = subprocess.run([sys.executable, "-B", "-m", "cvss.cvss_calculator"] + list(argv), cwd=bootstrap.REPO, env=env,
                            input="".join(a + "\n" for a in answers).encode("utf-8"), stdout=subprocess.PIPE,
